@@ -196,6 +196,27 @@ def programs():
             body = _subst_rd(body, rd, num)
             body = body.replace("MK", mk % {"n": num})
             yield ("%s/%s" % (hname, tname), PRELUDE + TARGET_HELPERS + body, MODULES)
+    for item in identity_programs():
+        yield item
+
+
+def identity_programs():
+    """what a program can observe about object identity must not depend on when collections happen: the same range
+    written twice (ranges are kept identical by a small cache, evicted in creation order), used as a map key, compared,
+    with few or many other ranges and plenty of allocation in between; strings built twice; a module imported twice"""
+    out = []
+    for between in (0, 1, 3, 6, 7, 8, 9, 12):
+        for alloc in ("churn(); churn();", "var log = []; for n in 0..300 { log = [\"entry\", n, (n, n)]; }", ""):
+            L = ["var sched = {};", "sched.insert(9..12, \"standup\");", "sched.insert(13..17, \"deep work\");", "var morning = 9..12;", alloc]
+            for k in range(between):
+                L.append("var r%d = %d..%d; %s" % (k, 100 + k, 200 + k, "churn();" if k % 3 == 0 else ""))
+            L += ["print(sched.get(9..12));", "print(sched.has_key(13..17));", "print(morning == 9..12);", "print((9..12) == (9..12));",
+                  alloc, "print([sched.get(morning), sched.len(), sched.has_key(9..12)]);",
+                  "var s1 = \"ab\" + \"cd\"; " + alloc + " var s2 = \"a\" + \"bcd\"; print(s1 == s2); var sm = {s1: 1}; print(sm.get(s2));",
+                  "import \"gm_holder\" as h1; " + alloc + " import \"gm_holder\" as h2; print(h1 == h2);",
+                  "var t1 = (1, [2]); var t2 = (1, [2]); print([t1 == t2, {(1, 2): 3}.get((1, 2))]);"]
+            out.append(("identity/range-%d-%d" % (between, len(alloc)), PRELUDE + "\n".join(L) + "\n", MODULES))
+    return out
 
 
 def _subst_rd(body, rd, num):
